@@ -183,7 +183,10 @@ class Builder:
 
     def crit(self, keys, pos):
         a = self.operand(keys, pos)
-        c = self.d(st.integers(0, 3))
+        c = self.d(st.integers(0, 4))
+        if c == 4:
+            # a bit test against a column: the right operand of "&" is an operand like any other
+            return ["call", self.f(self.d(st.sampled_from(keys)), pos), "bitwiseand", [self.f(self.d(st.sampled_from(keys)), pos)]]
         if c == 0:
             return ["eq", a, self.operand(keys, pos)]
         if c == 1:
